@@ -78,22 +78,50 @@ func Walk(roots ...graphql.Type) *SchemaDesc {
 			return TRef{Kind: "named", Name: t.Type}
 		case *graphql.Object:
 			def := &TDef{Kind: "object"}
-			if add(t.Name, t, def) {
+			if !seen[t] {
 				names := make([]string, 0, len(t.Fields))
 				for n := range t.Fields {
 					names = append(names, n)
 				}
 				sort.Strings(names)
-				for _, n := range names {
-					f := t.Fields[n]
-					fd := FieldDesc{Name: n, Type: visit(f.Type)}
-					for a := range f.Args {
-						fd.ArgKeys = append(fd.ArgKeys, a)
+				if old, dup := d.Defs[t.Name]; dup && old.Kind == "object" {
+					// the builder makes a fresh connection / edge object for every paginated field: the same name
+					// with the same fields is one type
+					seen[t] = true
+					same := len(old.Fields) == len(names)
+					for i := 0; same && i < len(names); i++ {
+						same = old.Fields[i].Name == names[i] && old.Fields[i].Type.String() == refOf(t.Fields[names[i]].Type).String()
 					}
-					sort.Strings(fd.ArgKeys)
-					def.Fields = append(def.Fields, fd)
-					if t.KeyField == f {
-						def.Key = n
+					if !same {
+						d.Clash = append(d.Clash, t.Name)
+					}
+					return TRef{Kind: "named", Name: t.Name}
+				}
+				if add(t.Name, t, def) {
+					for _, n := range names {
+						f := t.Fields[n]
+						fd := FieldDesc{Name: n, Type: visit(f.Type)}
+						for a, at := range f.Args {
+							fd.ArgKeys = append(fd.ArgKeys, a)
+							// enums that only arguments use are advertised too
+							for {
+								if l, ok := at.(*graphql.List); ok {
+									at = l.Type
+								} else if nn, ok := at.(*graphql.NonNull); ok {
+									at = nn.Type
+								} else {
+									break
+								}
+							}
+							if e, ok := at.(*graphql.Enum); ok {
+								visit(e)
+							}
+						}
+						sort.Strings(fd.ArgKeys)
+						def.Fields = append(def.Fields, fd)
+						if t.KeyField == f {
+							def.Key = n
+						}
 					}
 				}
 			}
@@ -170,4 +198,27 @@ func (d *SchemaDesc) Coq() string {
 		defs = append(defs, "("+vh.CoqString(n)+", "+body+")")
 	}
 	return vh.CoqList(defs)
+}
+
+// refOf is the reference to t without visiting it.
+func refOf(t graphql.Type) TRef {
+	switch t := t.(type) {
+	case *graphql.List:
+		e := refOf(t.Type)
+		return TRef{Kind: "list", Elem: &e}
+	case *graphql.NonNull:
+		e := refOf(t.Type)
+		return TRef{Kind: "nonnull", Elem: &e}
+	}
+	return TRef{Kind: "named", Name: t.String()}
+}
+
+func (r TRef) String() string {
+	switch r.Kind {
+	case "list":
+		return "[" + r.Elem.String() + "]"
+	case "nonnull":
+		return r.Elem.String() + "!"
+	}
+	return r.Name
 }
